@@ -31,7 +31,7 @@ def _digests(prop, seeds, workers, hashseed, tier="quick"):
         def on(job, res):
             out[job["id"]] = (res.get("status"), res.get("events_digest"), res.get("results_digest"))
 
-        pool.run(({"id": i, "kind": "seed", "property": prop, "tier": tier, "want_program": False, "deadline": 120,
+        pool.run(({"id": i, "kind": "seed", "property": prop, "tier": tier, "want_program": False, "deadline": 240,
                    "run_seed": P.derive_seed(987654321, prop, tier, i)} for i in seeds), on)
     return out, hello
 
